@@ -124,9 +124,13 @@ def data_byte_domain(ctx):
         r = ai.apply(ref, [AList(list(xs), 'list')], {}, None)
         holder['log'] = list(EVENT_LOG)
         return r
-    outs = ai.explore(thunk)
+    ai.no_probe = True          # every path of check_data itself is wanted here: a shortcut in front of the loop is a path
+    try:
+        outs = ai.explore(thunk, merge=False)
+    except Unsupported:
+        outs = []
     if len(outs) != 1 or outs[0].kind != 'return':
-        return fn, None, None
+        return fn, fn, _data_domain_by_execution(ctx, ref)
     def item_of(e):
         # the item is the first argument of a function / closure, or the second of a method bound to a helper object
         for x in xs:
@@ -140,7 +144,9 @@ def data_byte_domain(ctx):
     seen = [next(i for i, x in enumerate(xs) if item_of(e) is x) for e in calls]
     infos = {(e[3].qname, id(e[4]) if e[4] is not None else None, id(e[2]) if len(e) > 6 and item_of(e) is e[6] else None) for e in calls}
     if seen != [0, 1, 2] or len(infos) != 1:
-        return fn, None, None
+        # no single callable applied to every item (the test may be written out in the loop, or sit behind a shortcut for
+        # the common case): decide what check_data accepts by executing it on lists, one value and one position at a time
+        return fn, fn, _data_domain_by_execution(ctx, ref)
     item_fn, closure = calls[0][3], calls[0][4]
     receiver = calls[0][2] if len(calls[0]) > 6 and item_of(calls[0]) is calls[0][6] else None
     ctx.fn(item_fn)
@@ -162,6 +168,41 @@ def data_byte_domain(ctx):
             return fn, item_fn, None
     ctx.paths += r.paths
     return fn, item_fn, r
+
+
+def _data_domain_by_execution(ctx, ref):
+    try:
+        r = semantic_domain(ctx, lambda ai_, v: ai_.apply(ref, [AList([v], 'list')], {}, None))
+    except (Undecidable, Unsupported, AnalysisError):
+        return None
+    if looks_undecided(r):
+        return None
+    # every position is checked: one bad item (out of range, or not an integer) anywhere in a longer list is refused, and
+    # the good items around it do not matter
+    bads = []
+    for k, st in r.rejected.items():
+        for lo, hi in st.ivs:
+            bads.append(int(hi) if lo == float('-inf') else int(lo))
+    good = next((int(lo) if lo != float('-inf') else int(hi) for lo, hi in r.accepted.ivs if (lo, hi) != (float('-inf'), float('inf'))), None)
+    # (a float that equals an accepted integer is still not an integer)
+    bads = sorted(set(bads))[:4] + ['x', 1.5] + ([float(good)] if good is not None else [])
+    if good is None:
+        return r
+    for n in (2, 3, 5):
+        for pos in range(n):
+            for bad in bads:
+                ai = AbsInt(ctx.f)
+                items = [good] * n
+                items[pos] = bad
+                outs = ai.explore(lambda: ai.apply(ref, [AList(list(items), 'list')], {}, None))
+                if not outs or any(o.kind == 'return' for o in outs):
+                    return None
+    ai = AbsInt(ctx.f)
+    outs = ai.explore(lambda: ai.apply(ref, [AList([], 'list')], {}, None))
+    if len(outs) != 1 or outs[0].kind != 'return':
+        return None
+    r.notes.append('check_data executed on lists of 0..5 items with one bad item at every position')
+    return r
 
 
 def make_interp(ctx, data_checked=True, extra=None):
